@@ -386,7 +386,8 @@ def seam_and_corner_pairs(rng, gamma, n, with_addr=False):
     out = []
     K = len(gamma.pw_gamma)
     closed = bool(gamma.closed)
-    times = [(0.0, 1.0), (0.0, 0.5), (0.5, 1.0), (0.25, 0.5), (0.5, 0.75), (0.0, 0.25), (0.75, 1.0)]
+    times = [(0.0, 1.0), (0.0, 0.5), (0.5, 1.0), (0.25, 0.5), (0.5, 0.75), (0.0, 0.25), (0.75, 1.0),
+             (0.25, 0.75), (0.5, 1.5), (0.125, 0.625)]   # the last three: staggered against the others (elements of two time grids)
     base = 2 if (closed and K == 1) else 0   # one-piece closed curve: at least 4 elements around it
     kinds = ['seam', 'corner', 'seam', 'nested', 'interior', 'gap'] if closed else ['corner', 'nested', 'interior', 'gap']
     off = rng.randrange(len(kinds))
